@@ -33,9 +33,9 @@ PROP_TIES = {
             'Position.netTotal', 'Position.commission', 'Position.netInclCommission', 'Position.realised', 'Position.unrealised',
             'Position.totalPnl', 'Position.updatePrice', 'Position.transactBuy', 'Position.transactSell', 'Position.transact',
             'Position.openFrom'],
-    'C15': _keys('Position', 'transact', ['err']) + _keys('Position', 'updatePrice', ['err']) +
-           _keys('Portfolio', 'subscribe', ['err', 'cash', 'appended']) + _keys('Portfolio', 'withdraw', ['err', 'cash', 'appended']) +
-           _keys('Portfolio', 'transactAsset', ['err', 'cash', 'appended']),
+    'C15': _keys('Position', 'transact', ['err', 'refusal']) + _keys('Position', 'updatePrice', ['err', 'refusal']) +
+           _keys('Portfolio', 'subscribe', ['err', 'refusal']) + _keys('Portfolio', 'withdraw', ['err', 'refusal']) +
+           _keys('Portfolio', 'transactAsset', ['err', 'refusal']),
     'C01': ['Portfolio.subscribe', 'Portfolio.withdraw', 'Portfolio.transactAsset'],
     'C04': ['Broker.makeTxn'],
     'C05': ['Broker.makeTxn', 'PercentFee.totalCost', 'ZeroFee.totalCost'],
@@ -45,6 +45,19 @@ PROP_TIES = {
             'Position.net', 'Position.marketValue'] + _keys('Position', 'transact', _POS_FIELDS_QTY) + _keys('Position', 'openFrom', _POS_FIELDS_QTY),
 }
 _UNIT_OF = {'Portfolio': 'Kernels', 'PercentFee': 'Kernels', 'ZeroFee': 'Kernels', 'DW': 'Kernels', 'LS': 'Kernels', 'Broker': 'Kernels'}
+
+
+# hand-written corollaries that restate property clauses for the translated source (QsProofs/Tie/Lifted.lean); the module
+# refers to these tie theorems, so it is only built when all of them are proved
+LIFTED_REQUIRES = ['Position.totalPnl', 'Position.realised', 'Position.unrealised', 'Position.avgPrice', 'Position.net',
+                   'Position.transact', 'PercentFee.totalCost', 'ZeroFee.totalCost', 'DW.quantity', 'LS.quantity', 'Broker.makeTxn']
+LIFTED_BY_PROP = {
+    'C02': ['Qs.Tie.C02_src_transact'],
+    'C03': ['Qs.Tie.C03_src_total', 'Qs.Tie.C03_src_avgPrice'],
+    'C05': ['Qs.Tie.C05_src_fill', 'Qs.Tie.C05_src_percent', 'Qs.Tie.C05_src_zero'],
+    'C10': ['Qs.Tie.C10_src_quantity'],
+    'C11': ['Qs.Tie.C11_src_quantity'],
+}
 
 
 def _lean_errors(path):
@@ -77,6 +90,8 @@ def run_ties(prop=None):
     wanted = None
     if prop is not None:
         wanted = set(_UNIT_OF.get(k.split('.')[0], k.split('.')[0]) for k in PROP_TIES.get(prop, []))
+        if prop in LIFTED_BY_PROP:
+            wanted |= set(_UNIT_OF.get(k.split('.')[0], k.split('.')[0]) for k in LIFTED_REQUIRES)
         if not wanted:
             return {}, ''
     # which proofs failed for exactly this source was found out by an earlier run: start from there
@@ -159,6 +174,13 @@ def for_property(prop, ties):
             out['failed'].append(dict(key=k, theorem=v['theorem'], python=v['python'], file=v['file']))
         else:
             out['untranslatable'].append(dict(key=k, python=v['python'], reason=v['reason']))
+    out['lifted'] = []
+    if prop in LIFTED_BY_PROP:
+        if all(ties.get(k, {}).get('status') == 'proved' for k in LIFTED_REQUIRES):
+            out['lifted'] = list(LIFTED_BY_PROP[prop])
+            out['modules'].append('QsProofs.Tie.Lifted')
+        else:
+            out['lifted_skipped'] = [k for k in LIFTED_REQUIRES if ties.get(k, {}).get('status') != 'proved']
     return out
 
 
